@@ -260,50 +260,126 @@ func main() {
 		}
 	}
 	results := make([]*HarnessResult, len(insts))
+	type task struct {
+		inst   int
+		prefix []Decision
+	}
+	var mu sync.Mutex
+	cond := sync.NewCond(&mu)
+	var stack []task
+	outstanding := 0
+	started := make([]time.Time, len(insts))
+	remaining := make([]int, len(insts)) // outstanding tasks per instance
+	npaths := make([]int, len(insts))
+	for i := len(insts) - 1; i >= 0; i-- {
+		stack = append(stack, task{i, nil})
+		outstanding++
+		remaining[i]++
+		results[i] = newResult(insts[i].fn.Name(), insts[i].params)
+	}
+	finish := func(i int) {
+		r := results[i]
+		cfg := mkcfg(insts[i].fn)
+		r.Mode = cfg.Mode + "/" + cfg.FP
+		r.Solver = cfg.Solver
+		r.WallS = time.Since(started[i]).Seconds()
+		fmt.Fprintf(os.Stderr, "[%s %v] paths=%v asserts=%s queries=%d (%.1fs solver, %.1fs wall)\n",
+			r.Name, r.Params, r.Paths, summarizeAsserts(r), r.Stats.Queries, r.Stats.Seconds, r.WallS)
+	}
 	var wg sync.WaitGroup
-	ch := make(chan int)
 	for w := 0; w < *jobs; w++ {
 		wg.Add(1)
 		go func() {
 			defer wg.Done()
-			for i := range ch {
-				j := insts[i]
-				cfg := mkcfg(j.fn)
-				t1 := time.Now()
-				e := newEngine(prog, cfg, j.params, *seed)
-				e.verbose = *verbose
+			var e *Engine
+			cur := -1
+			flush := func() {
+				if e != nil {
+					e.solver.Close()
+					if e.h != nil {
+						e.h.Stats = e.solver.Stats
+						mu.Lock()
+						results[cur].merge(e.h)
+						mu.Unlock()
+					}
+					e = nil
+				}
+			}
+			for {
+				mu.Lock()
+				for len(stack) == 0 && outstanding > 0 {
+					cond.Wait()
+				}
+				if outstanding == 0 {
+					mu.Unlock()
+					flush()
+					cond.Broadcast()
+					return
+				}
+				// prefer the newest task of the instance this worker already has an engine for
+				k := len(stack) - 1
+				for q := len(stack) - 1; q >= 0 && q >= len(stack)-64; q-- {
+					if stack[q].inst == cur {
+						k = q
+						break
+					}
+				}
+				t := stack[k]
+				stack = append(stack[:k], stack[k+1:]...)
+				if started[t.inst].IsZero() {
+					started[t.inst] = time.Now()
+				}
+				mu.Unlock()
+				if t.inst != cur {
+					flush()
+					cur = t.inst
+					cfg := mkcfg(insts[cur].fn)
+					e = newEngine(prog, cfg, insts[cur].params, *seed)
+					e.verbose = *verbose
+				}
+				var alts [][]Decision
 				func() {
 					defer func() {
 						if r := recover(); r != nil {
-							fmt.Fprintf(os.Stderr, "ENGINE PANIC in %s: %v\n", j.fn.Name(), r)
-							if e.h != nil {
-								e.h.Paths["ENGINE-PANIC"]++
-								e.h.PathDetails[fmt.Sprint("ENGINE-PANIC: ", r)]++
+							fmt.Fprintf(os.Stderr, "ENGINE PANIC in %s: %v\n", insts[cur].fn.Name(), r)
+							if e.h == nil {
+								e.h = newResult(insts[cur].fn.Name(), insts[cur].params)
 							}
+							e.h.Paths["ENGINE-PANIC"]++
+							e.h.PathDetails[fmt.Sprint("ENGINE-PANIC: ", r)]++
 							if *verbose {
 								panic(r)
 							}
 						}
 					}()
-					e.RunHarness(j.fn, nil)
+					alts = e.RunOne(insts[cur].fn, t.prefix, nil)
 				}()
-				e.solver.Close()
-				r := e.h
-				r.Stats = e.solver.Stats
-				r.Mode = cfg.Mode + "/" + cfg.FP
-				r.Solver = cfg.Solver
-				r.WallS = time.Since(t1).Seconds()
-				results[i] = r
-				fmt.Fprintf(os.Stderr, "[%s %v] paths=%v asserts=%s queries=%d (%.1fs solver, %.1fs wall)\n",
-					r.Name, r.Params, r.Paths, summarizeAsserts(r), r.Stats.Queries, r.Stats.Seconds, r.WallS)
+				mu.Lock()
+				npaths[cur]++
+				cfg := mkcfg(insts[cur].fn)
+				if cfg.MaxPath > 0 && npaths[cur] >= cfg.MaxPath && len(alts) > 0 {
+					results[cur].Truncated = true
+					alts = nil
+				}
+				for _, a := range alts {
+					stack = append(stack, task{cur, a})
+				}
+				outstanding += len(alts) - 1
+				remaining[cur] += len(alts) - 1
+				done := remaining[cur] == 0
+				mu.Unlock()
+				cond.Broadcast()
+				if done {
+					// other workers may still hold partial results of this instance; they flush when they switch.
+					// The final report is printed after all workers have finished.
+				}
 			}
 		}()
 	}
-	for i := range insts {
-		ch <- i
-	}
-	close(ch)
 	wg.Wait()
+	for i := range insts {
+		finish(i)
+	}
 	emit(*out, results, loadS, time.Since(t0).Seconds())
 }
 
